@@ -568,6 +568,8 @@ def sched_job(scenario):
 
 def task_a(item):
     sid, scenario, prefixes = item
+    if prefixes is None:
+        prefixes = schedules_a(scenario)
     res = {"schedules": 0, "runs": 0, "steps": 0, "packets": 0, "qlogs": 0, "viol": [], "outcomes": set(),
            "unopened": 0, "exceptions_both": 0}
     def run_confirmed(prefix, setting):
@@ -1100,19 +1102,63 @@ def chunk(lst, n):
     return [lst[i: i + n] for i in range(0, len(lst), n)]
 
 
+_FUNCS = {}
+
+
+def task_any(x):
+    tag, item = x
+    return _FUNCS[tag](item)
+
+
+class Batch:
+    """run(ctx) is executed twice: the first pass only collects the work items of all parts,
+    then ONE worker pool executes them (forking a pool costs seconds of page copying per
+    worker), the second pass aggregates."""
+
+    def __init__(self):
+        self.collecting = True
+        self.items = []
+        self.res = {}
+        self.t0 = time.time()
+
+    def get(self, tag, func, items):
+        if self.collecting:
+            _FUNCS[tag] = func
+            self.items += [(tag, it) for it in items]
+            return None
+        return self.res.get(tag, [])
+
+    def execute(self):
+        # big items first
+        order = sorted(range(len(self.items)), key=lambda i: 0 if self.items[i][0] in ("a", "b") else 1)
+        out = core.pmap(task_any, [self.items[i] for i in order], ordered=True)
+        for i, r in zip(order, out):
+            self.res.setdefault(self.items[i][0], []).append((i, r))
+        for tag in self.res:
+            self.res[tag] = [r for _i, r in sorted(self.res[tag], key=lambda t: t[0])]
+        self.collecting = False
+
+
 def run(ctx):
+    batch = Batch()
+    _run(ctx, batch)
+    batch.execute()
+    _run(ctx, batch)
+
+
+def _run(ctx, batch):
     tier, seed = ctx.tier, ctx.seed
     # a setting in which the code loops forever also allocates forever: cap the address space
     soft, hard = resource.getrlimit(resource.RLIMIT_AS)
     resource.setrlimit(resource.RLIMIT_AS, (12 << 30, hard))
     quick = tier == "quick"
     only = ctx.only_parts
-    t_all = time.time()
+    t_all = batch.t0
     outcomes_total = 0
 
     # ------------------------------------------------------------------ part A
-    if not only or "netsim" in only:
-        t0 = time.time()
+    def part_a():
+        nonlocal outcomes_total
         scripts = sorted(c01.SCRIPTS)
         cfgs = ["reno_v1", "cubic_v2"] if quick else list(c01.CONFIGS)
         scen = {}
@@ -1122,16 +1168,10 @@ def run(ctx):
         # special front-end scenarios: Retry and Version Negotiation packets are logged too
         for nm, cfg in (("retry", {"retry": True}), ("vn", {"vn": True}), ("retry_v2", {"retry": True, "version": c01.V2})):
             scen["echo/%s" % nm] = ({"ops": c01.SCRIPTS["echo"], "cfg": cfg}, True)
-        items = []
-        n_sched = 0
-        full_ids = [sid for sid, (sc, full) in scen.items() if full]
-        scheds = dict(zip(full_ids, core.pmap(sched_job, [scen[sid][0] for sid in full_ids], ordered=True)))
-        for sid, (sc, full) in scen.items():
-            sch = scheds[sid] if full else [[]]
-            n_sched += len(sch)
-            for part in chunk(sch, 12):
-                items.append((sid, sc, part))
-        results = core.pmap(task_a, items, ordered=True)
+        items = [(sid, sc, None if full else [[]]) for sid, (sc, full) in scen.items()]
+        results = batch.get("a", task_a, items)
+        if results is None:
+            return
         agg = {"schedules": 0, "runs": 0, "steps": 0, "packets": 0, "qlogs": 0, "unopened": 0,
                "exceptions_both": 0}
         outs = set()
@@ -1148,7 +1188,7 @@ def run(ctx):
                  evaluations=agg["runs"], states=agg["steps"], transitions=agg["steps"],
                  packets_compared=agg["packets"], qlog_documents_checked=agg["qlogs"],
                  packets_not_opened_by_observer=agg["unopened"], exceptions_in_all_settings=agg["exceptions_both"],
-                 distinct_nontrivial=len(outs), violations_raw=len(viol), wall=round(time.time() - t0, 1))
+                 distinct_nontrivial=len(outs), violations_raw=len(viol))
         outcomes_total += len(outs)
         if agg["schedules"] > 20 and len(outs) < 3:
             raise core.HarnessError("vacuous: part A produced %d distinct run outcomes" % len(outs))
@@ -1156,8 +1196,8 @@ def run(ctx):
                     "schedules": "default + every single deviation"})
 
     # ------------------------------------------------------------------ part B
-    if not only or "peerbot" in only:
-        t0 = time.time()
+    def part_b():
+        nonlocal outcomes_total
         core4 = ["server_connected", "client_connected", "server_after_initial", "client_after_server_flight"]
         both = [SETTINGS[0], SETTINGS[3]]
         jobs = []  # (state, menu tier, settings)
@@ -1180,7 +1220,9 @@ def run(ctx):
             sizes["%s/%s" % (st, mt)] = n
             for lo in range(0, n, 400):
                 items.append((st, mt, lo, min(n, lo + 400), sett))
-        results = core.pmap(task_b, items, ordered=True)
+        results = batch.get("b", task_b, items)
+        if results is None:
+            return
         agg = {"inputs": 0, "endpoints": 0, "qlogs": 0, "exc_both": 0, "chains": 0, "out_of_c_contract": 0,
                "lane_inputs": 0}
         classes = {}
@@ -1198,14 +1240,14 @@ def run(ctx):
                  endpoints=agg["endpoints"],
                  chains=agg["chains"], qlog_documents_checked=agg["qlogs"], exceptions_in_all_settings=agg["exc_both"],
                  skipped_out_of_c_contract=agg["out_of_c_contract"], distinct_nontrivial=len(classes), reaction_classes={"%s:%s" % k: n for k, n in sorted(classes.items())},
-                 inputs_per_state=sizes, violations_raw=len(viol), wall=round(time.time() - t0, 1))
+                 inputs_per_state=sizes, violations_raw=len(viol))
         outcomes_total += len(classes)
         if len(classes) < 4:
             raise core.HarnessError("vacuous: part B produced %d reaction classes" % len(classes))
 
     # ------------------------------------------------------------------ part C
-    if not only or "h3" in only:
-        t0 = time.time()
+    def part_c():
+        nonlocal outcomes_total
         items = []
         for role in ("server", "client"):
             ms = c16.menu_for("h3", role)[0]
@@ -1223,7 +1265,9 @@ def run(ctx):
                     chunkings = ("whole", "bytes")
                 for part in chunk(idxs, 40):
                     items.append((role, prefix, part, chunkings))
-        results = core.pmap(task_c, items, ordered=True)
+        results = batch.get("c", task_c, items)
+        if results is None:
+            return
         agg = {"cases": 0, "qlogs": 0, "raised_both": 0, "skipped": 0}
         outs = set()
         viol = []
@@ -1238,9 +1282,13 @@ def run(ctx):
                  exceptions_in_both_settings=agg["raised_both"], distinct_nontrivial=len(outs),
                  violations_raw=len(viol), wall=round(time.time() - t0, 1))
         outcomes_total += len(outs)
-        t0 = time.time()
+
+    def part_capi():
+        nonlocal outcomes_total
         cases = api_menu()
-        results = core.pmap(task_c_api, chunk(cases, 6), ordered=True)
+        results = batch.get("capi", task_c_api, chunk(cases, 6))
+        if results is None:
+            return
         agg = {"cases": 0, "qlogs": 0, "raised_both": 0}
         outs = set()
         viol = []
@@ -1252,10 +1300,20 @@ def run(ctx):
         _report(ctx, viol, lambda v: dict(v[2], part="h3api"))
         ctx.part("h3_api_frame_created", cases=agg["cases"], evaluations=2 * agg["cases"], transitions=agg["cases"],
                  qlog_documents_checked=agg["qlogs"], exceptions_in_both_settings=agg["raised_both"],
-                 distinct_nontrivial=len(outs), violations_raw=len(viol), wall=round(time.time() - t0, 1))
+                 distinct_nontrivial=len(outs), violations_raw=len(viol))
         outcomes_total += len(outs)
         if len(outs) < 2:
             raise core.HarnessError("vacuous: H3 API menu produced %d outcomes" % len(outs))
+
+    if not only or "netsim" in only:
+        part_a()
+    if not only or "peerbot" in only:
+        part_b()
+    if not only or "h3" in only:
+        part_c()
+        part_capi()
+    if batch.collecting:
+        return
 
     ctx.cov["rule"] = (
         "paired executions: every input of the menus (C01 scripts x default + every single-deviation "
